@@ -119,6 +119,13 @@ def run_routines(ctx, dec_lines, ref_lines, cutoff, check, enforce, izone=None, 
         return fn, list(arg)
 
     used = {}
+    if _counter[0] % 3 == 0:
+        # history on the same object: the routines were already called with ANOTHER cutoff (no zone files); every value
+        # examined below is a function of its own arguments and the two files only
+        other = cutoff + 2.5 if _counter[0] % 2 else max(1.0, cutoff / 2)
+        for f in (lambda: S.compute_irmsd_fast(method='svd', cutoff=other, check=check), lambda: S.compute_irmsd_pdb2sql(cutoff=other, method='svd'),
+                  lambda: S.compute_lrmsd_fast(method='svd', check=check), lambda: S.compute_lrmsd_pdb2sql(method='quaternion')):
+            call(f)
     for m in methods:
         try:
             izf, iztext = zone_file('izone', izone)
